@@ -528,6 +528,41 @@ def fold_table(idx, cls, meth, member_key, kind="all", source="self.results", so
             if len(ps) != 1 or ps[0].result != ("return", want):
                 desc = [f"{member_key}={v}, {nl} collected line(s)" for v, nl in combo]
                 return fi, False, f"members [{'; '.join(desc)}]: {cls}.{meth} gives {[p.result for p in ps][:2]}, documented {want!r} ({'conjunction' if kind == 'all' else 'sum'} over every member)", n_rows
+    # the same question asked twice of one object, the members' values changing in between (a verdict asked for while the run is still going,
+    # or before and after a later run): the answer is the fold over the members as they are now
+    for n in range(1, nmax + 1):
+        for combo in itertools.product(vals, repeat=n):
+            members = [Obj(f"r{i}") for i in range(n)]
+            first = vals[0]
+            store = {}
+            types = {"self": cls}
+            for i in range(n):
+                types[f"r{i}"] = "Result"
+                store[f"r{i}.{member_key}"] = first
+                store[f"r{i}._lines"] = []
+                store[f"r{i}.lines"] = store[f"r{i}._lines"]
+            handlers = {}
+            if source_handler:
+                handlers[source_handler] = lambda i, c, r, a, k, members=members: list(members)
+            else:
+                store[source] = list(members)
+            it = Interp(idx, types=types, unknown_calls="residual", handlers=handlers)
+
+            def program(i, combo=combo, n=n):
+                a1 = dict(args or {})
+                r1 = i.call_function(fi, a1, "self")
+                for j in range(n):
+                    i.store[f"r{j}.{member_key}"] = combo[j]
+                r2 = i.call_function(fi, dict(args or {}), "self")
+                return r1, r2
+
+            ps = it.run_program(program, store)
+            n_rows += 1
+            w1 = True if kind == "all" else 0
+            w2 = all(combo) if kind == "all" else sum(combo)
+            if len(ps) != 1 or ps[0].result != ("return", (w1, w2)):
+                return fi, False, (f"{n} member(s) with {member_key}={first} when first asked, then {member_key}={list(combo)}: {cls}.{meth} answers {[p.result for p in ps][:2]}, "
+                                   f"documented {(w1, w2)!r} (the second answer is the {'conjunction' if kind == 'all' else 'sum'} over the members as they are then)"), n_rows
     return fi, True, f"{n_rows} member lists", n_rows
 
 
